@@ -1113,6 +1113,14 @@ theorem MotionTie_move_hook (b : B) (hk : Hook) (h : Rat) :
   rw [e1, e2]
   exact ⟨h1, h2⟩
 
+/-- **The constructors**: `GCodeBuilder(...)` - `GCodeCore.__init__`, `GCodeBuilder.__init__` and `GState.__init__` as translated -
+    yields the model's initial builder: every tracked field assigned per object (a field declared on the class, shared between
+    builders, is refused by the translator), position unknown, absolute mode, no remembered parameters, no hooks, the initial
+    state object of `StateTie_init`; nothing is written.  With `MotionTie_run`: every history from a *new* builder. -/
+theorem MotionTie_init : GCodeBuilder.init = (absB {}, none) := by
+  simp only [GCodeBuilder.init, StateTie_init]
+  rfl
+
 /-! ## C05 read off the translated source -/
 
 /-- **A translated command that raises has changed nothing**: whenever a translated command agrees with the model's step
